@@ -11,6 +11,7 @@ func init() {
 var k8Assume = []string{
 	"environment = stubs with stated contracts: os.MkdirAll/WriteFile/Exit, fmt.Fprintln, packages.Load, jennifer are recording stubs; comments.ParseDocs / config.Parse / generator.Generate / generateConverter / cli.Parse / GenerateConverters are programmable stubs where listed; path/filepath is native on concrete strings and uninterpreted (congruent) on atoms",
 	"harnesses that depend on stubs cannot be replayed natively; a symbolic counterexample is reported only if the named end-to-end scenario (real binary on a scratch module) deviates as well, otherwise it is printed as UNCONFIRMED",
+	"every check also runs the end-to-end scenario of its property with the real binary as a supplementary leg (concrete runs, not a solver verdict); a deviation there is reported as a violation",
 	"real filepath semantics (.., cleaning), jennifer's package-name normalisation, the on-disk tree across several input packages, go/packages honouring tags, package flag: outside (process / file-system level)",
 }
 
@@ -41,6 +42,7 @@ func runC15(opt *Options) int {
 			kernelGenerateConverters("c15"),
 		},
 		Funcs:  []string{"generator.(*fileManager).Get", "generator.getOutputDir", "config.(*ConverterConfig).PackageID", "config.parseConverterLine (output:package, output:file arms)", "parse.File", "parse.String", "config.defaultOutputFile", "config.getPackages", "config.registerConverterLines", "config.registerMethodLines", "config.resolveOutputPackage", "config.resolvePackage", "pkgload.New", "pkgload.(*PackageLoader).load/GetUncheckedPkg", "goverter.GenerateConverters", "goverter.generateConvertersRaw", "goverter.writeFiles"},
+		E2EAlways: "c15",
 		Bounds: "two converters with arbitrary (atom) file names, output files, package paths and names; output:package / output:file values of <= 6/7 (thorough 9/10) arbitrary non-blank ASCII bytes; declaring file names of <= 8 (thorough 11) arbitrary bytes; <= 2 generated files",
 		Assume: k8Assume,
 	}
@@ -59,6 +61,7 @@ func runC16(opt *Options) int {
 			{Name: "K8.run", Pkg: "cli", Harness: "VerifHarness_C17_Run", Unwind: 16, E2E: "c16", Stub: []string{"github.com/jmattheis/goverter/cli.Parse", "github.com/jmattheis/goverter.GenerateConverters"}},
 		},
 		Funcs:  []string{"cli.Run (configuration hand-over)", "generator.(*fileManager).Get (header emission)", "comments.ParseDocs", "pkgload.New", "pkgload.(*PackageLoader).load", "goverter.generateConvertersRaw"},
+		E2EAlways: "c16",
 		Bounds: "any build-tags / constraint string (atoms; the header constraint <= 3 arbitrary bytes); two converters sharing or not sharing a file",
 		Assume: k8Assume,
 	}
@@ -75,6 +78,7 @@ func runC17(opt *Options) int {
 			{Name: "K8.run", Pkg: "cli", Harness: "VerifHarness_C17_Run", Unwind: 16, E2E: "c17", Stub: []string{"github.com/jmattheis/goverter/cli.Parse", "github.com/jmattheis/goverter.GenerateConverters"}},
 		},
 		Funcs:  []string{"goverter.GenerateConverters", "goverter.generateConvertersRaw", "goverter.writeFiles", "generator.Generate", "generator.(*fileManager).Get", "generator.(*fileManager).renderFiles", "cli.Run"},
+		E2EAlways: "c17",
 		Bounds: "every failing stage (doc scan, config, generation), <= 3 converters with the failure at any position, <= 2 output files, every parse outcome of the command line (error, help, gen, version)",
 		Assume: k8Assume,
 	}
